@@ -119,14 +119,13 @@ Example ex_names_no_liberal :
   leaf_ok (lit "a""b""") = false /\ leaf_ok (lit "a|b|") = false.
 Proof. vm_compute. repeat split; reflexivity. Qed.
 
-(* a string literal is not a piped name: its candidates are cut as for a plain name *)
+(* a string literal or a comment in the place of the symbol is left alone (fix F47); before, its candidates were cut as
+   for a plain name and were not tokens: """a" or ";ab" without the line break *)
 Example ex_names_strlit :
-  ssn_names novar (lit """ab""") = [lit """a"; lit """ab"; lit "ab"""] /\
-  leaf_ok (lit """a") = false.
+  ssn_names novar (lit """ab""") = [] /\ leaf_ok (lit """a") = false.
 Proof. vm_compute. split; reflexivity. Qed.
 
-(* neither is a comment leaf: its candidates lose the semicolon or the line break *)
 Example ex_names_comment :
-  ssn_names novar [cSEMI; 97%N; 98%N; cLF] = [[cSEMI; 97%N]; [cSEMI; 97%N; 98%N]; [97%N; 98%N; cLF]] /\
+  ssn_names novar [cSEMI; 97%N; 98%N; cLF] = [] /\
   leaf_ok [cSEMI; 97%N] = false /\ leaf_ok [97%N; 98%N; cLF] = false.
 Proof. vm_compute. repeat split; reflexivity. Qed.
